@@ -270,3 +270,21 @@ Theorem C06_init_on_zeroed_memory :
     i_run bytes (cf_body fn_init) c = Some (init_ctx bytes).
 Proof. exact skel_init_zeroed. Qed.
 Print Assumptions C06_init_on_zeroed_memory.
+
+(* ------------------------------------------------------------------ tie by translation: the accessors *)
+(* Every accessor of the public API, REGENERATED from barectf.c.j2 (which field it returns, directly or through
+   one delegation), read on the model context returns the model's field: so "the accessors always tell the
+   truth" (C06_accessors above, about the model's fields) is about what the C accessors return. *)
+From BT.Tracer Require Import CSkelAcc.
+Theorem C06_accessors_are_the_translated_C :
+  forall c,
+  acc c "packet_size" = Some (c_psize c) /\
+  acc c "packet_buf_size" = Some (c_psize c / 8) /\
+  acc c "packet_events_discarded" = Some (c_disc c) /\
+  acc c "discarded_event_records_count" = Some (c_disc c) /\
+  acc c "packet_sequence_number" = Some (c_seq c) /\
+  acc c "packet_is_open" = Some (b2n (c_open c)) /\
+  acc c "is_in_tracing_section" = Some (b2n (c_in_ts c)) /\
+  acc c "is_tracing_enabled" = Some (b2n (c_enabled c)).
+Proof. exact accessors_truth. Qed.
+Print Assumptions C06_accessors_are_the_translated_C.
